@@ -195,7 +195,9 @@ def gen_history(rng, nops, j=False):
         elif r < 0.88:
             lines.append("%slen" % pre)
         elif r < 0.93:
-            lines.append("%ssort" % pre)
+            # `sortd`: the same comparator function answering in descending order (round-6 seed C07-9: a sort that is
+            # skipped because "nothing was stored since the last sort with this comparator")
+            lines.append("%ssort%s" % (pre, "d" if rng.chance(0.35) else ""))
         elif r < 0.99:
             lines.append("%sbs %d" % (pre, rng.choice(used + [0, nextid[0]]) if used else 0))
         else:
@@ -217,6 +219,10 @@ def sorted_history(rng, j):
         lines.append("%sadd %d" % (pre, v if rng.chance(0.9) else 0))
     if rng.chance(0.3) and ids:
         lines.append("%sput %d %d" % (pre, len(ids) + rng.randrange(0, 4), rng.randrange(200, 300)))
+    if rng.chance(0.3):
+        lines.append("%ssort%s" % (pre, "d" if rng.chance(0.5) else ""))
+        lines.append("%ssort%s" % (pre, "d" if rng.chance(0.5) else ""))
+        lines.append("%sget %d" % (pre, rng.randrange(0, 3)))
     lines.append("%ssort" % pre)
     for _ in range(rng.randrange(1, 8)):
         lines.append("%sbs %d" % (pre, rng.choice(ids + [0, 1, 199, 250, rng.randrange(0, 300)]) if ids else 0))
@@ -225,7 +231,7 @@ def sorted_history(rng, j):
 
 # small-scope exhaustive part: every sequence over this alphabet from four start states
 ALPHABET = ["add 91", "put 1 92", "put 6 93", "ins 0 94", "ins 2 0", "del 0 1", "del 1 2", "del 1 %d" % SIZE_MAX,
-            "shrink 0", "sort"]
+            "shrink 0", "sort", "sortd"]
 STARTS = [["new 0"], ["new 1", "add 11"], ["new 2", "add 21", "add 22", "put 4 23"],
           ["new 32", "add 35", "add 34", "add 0", "add 33", "add 32", "add 31", "del 4 2"]]
 
